@@ -31,6 +31,7 @@ func init() {
 			{"PAN-REGION", 8, rulePanRegion},
 			{"PAN-SITE", 20, rulePanSite},
 			{"PAN-HANDLER", 3, rulePanHandler},
+			{"PAN-CONVERT", 4, rulePanConvert},
 			{"PAN-PREFIX", 8, rulePanPrefix},
 			{"PAR-ADVANCE", 40, ruleParAdvance},
 			{"TERM-LOOPS", 15, ruleTermLoops},
@@ -255,4 +256,99 @@ func (c *Ctx) triageAliases(s *panSite) []string {
 		}
 	}
 	return out
+}
+
+// PAN-CONVERT: every recover() guard turns the recovered value into the error its
+// function returns: on each path of the deferred closure on which recover() yielded a
+// non-nil value, the enclosing function's *named* error result (the object itself, not a
+// shadowing variable of the same name) is assigned a non-nil value before the closure
+// returns.  Otherwise the panic is swallowed and the caller sees (nil, nil).
+func rulePanConvert(c *Ctx, r *R) {
+	n := 0
+	for _, name := range c.FuncNames() {
+		fd := c.Func(name)
+		if fd.Body == nil || fd.Type.Results == nil {
+			continue
+		}
+		// named error results
+		var errObjs []types.Object
+		for _, f := range fd.Type.Results.List {
+			for _, nm := range f.Names {
+				if o := c.Info.Defs[nm]; o != nil && types.Identical(o.Type(), types.Universe.Lookup("error").Type()) {
+					errObjs = append(errObjs, o)
+				}
+			}
+		}
+		for _, s := range fd.Body.List {
+			ds, ok := s.(*ast.DeferStmt)
+			if !ok {
+				continue
+			}
+			fl, ok := ds.Call.Fun.(*ast.FuncLit)
+			if !ok {
+				continue
+			}
+			recovers := false
+			ast.Inspect(fl.Body, func(k ast.Node) bool {
+				if call, ok := k.(*ast.CallExpr); ok && c.CalleeName(call) == "builtin.recover" {
+					recovers = true
+				}
+				return true
+			})
+			if !recovers {
+				continue
+			}
+			n++
+			key := "convert " + name
+			if len(errObjs) == 0 {
+				r.fail(key, c.Pos(ds), name+" recovers a panic but has no named error result to report it through: the panic is swallowed")
+				continue
+			}
+			in := newInterp(c)
+			in.NoLin = true
+			in.Inline = c.isNewHelper
+			st := newState()
+			for _, o := range errObjs {
+				st.Vars[o] = tVar(o, "initial:"+o.Name())
+			}
+			paths := in.ExecLit(fl, st, nil)
+			if len(paths) == 0 || in.Overflow {
+				r.undecided(key, c.Pos(ds), "the deferred closure could not be enumerated")
+				continue
+			}
+			good, sawPanicPath := true, false
+			bad := ""
+			for _, p := range paths {
+				cs := condStrings(p)
+				// the path on which something was recovered
+				if !strings.Contains(cs, "builtin.recover() != nil") {
+					if strings.Contains(cs, "builtin.recover() == nil") {
+						continue
+					}
+					// a closure that does not test the recovered value: treat every path as a panic path
+				}
+				sawPanicPath = true
+				assigned := false
+				for _, o := range errObjs {
+					v := p.Vars[o]
+					if v != nil && !strings.HasPrefix(v.String(), "initial:") && v.Op != "nil" {
+						assigned = true
+					}
+				}
+				if !assigned {
+					good = false
+					bad = cs
+				}
+			}
+			if !sawPanicPath {
+				r.undecided(key, c.Pos(ds), "no path with a non-nil recovered value was found")
+				continue
+			}
+			r.check(good, key, c.Pos(ds), "every path with a recovered value assigns the named error result",
+				name+"'s recover guard has a path ("+bad+") on which a value was recovered but the function's named error result is not assigned (an assignment to a shadowing variable of the same name does not count): the panic — e.g. an error value re-raised by a native callback or by a failed nested call — is swallowed and the caller receives a nil error")
+		}
+	}
+	if n < 4 {
+		r.undecided("convert", "-", fmt.Sprintf("only %d recover guards found (expected parse, compiler.run, VM.run, VM.Func)", n))
+	}
 }
